@@ -95,7 +95,41 @@ fn under_test_raw(consumer: usize, mut s: SignalsInfo<WithRawSiginfo>) -> i32 {
     }
 }
 
+/// C10, sequential: several `Pending` batches of one instance alive at once on one thread. `take_first`
+/// records are taken from the first batch, one more delivery is queued, a second batch is consumed
+/// completely, then the rest of the first: the records of the one signal come out in delivery order.
+fn overlapping_batches(take_first: usize, e: &mut Emit) {
+    let mut s = SignalsInfo::<WithRawSiginfo>::new(&[SIG]).expect("new");
+    extern "C" {
+        fn sigqueue(pid: libc::pid_t, sig: libc::c_int, value: libc::sigval) -> libc::c_int;
+    }
+    let q = |v: usize| unsafe {
+        sigqueue(libc::getpid(), SIG, libc::sigval { sival_ptr: v as *mut libc::c_void });
+    };
+    let val = |i: libc::siginfo_t| unsafe { i.si_value().sival_ptr as usize };
+    for v in 1..=3 {
+        q(v);
+    }
+    let mut order: Vec<usize> = Vec::new();
+    let mut p1 = s.pending();
+    for _ in 0..take_first {
+        if let Some(i) = p1.next() {
+            order.push(val(i));
+        }
+    }
+    q(4);
+    let p2 = s.pending();
+    order.extend(p2.map(val));
+    order.extend(p1.map(val));
+    let p3 = s.pending();
+    order.extend(p3.map(val));
+    e.line(&format!("order={:?}", order));
+}
+
 fn cell(exf: usize, consumer: usize, in_child: bool, e: &mut Emit) {
+    if exf == 9 {
+        return overlapping_batches(consumer, e);
+    }
     // the instance is created here, before the fork
     let a = if exf == 0 { Some(Signals::new(&[SIG]).expect("new")) } else { None };
     let b = if exf == 1 { Some(SignalsInfo::<WithRawSiginfo>::new(&[SIG]).expect("new")) } else { None };
@@ -146,12 +180,28 @@ pub fn run(prop: &str, _tier: Tier) -> BResult {
             }
         }
     }
+    if prop == "C10" {
+        for k in 0..=3 {
+            cells.push((9, k, false));
+        }
+    }
     let c2 = cells.clone();
     let probes = run_cells(cells.len(), 8, Duration::from_secs(20), move |i, e| cell(c2[i].0, c2[i].1, c2[i].2, e));
     let mut violations = Vec::new();
     let mut distinct = std::collections::HashSet::new();
     for (i, p) in probes.iter().enumerate() {
         let (x, c, forked) = cells[i];
+        if x == 9 {
+            let case = json!({"grid": "two batches from pending() alive at once on one thread", "taken_from_the_first_batch_before_the_next_delivery": c});
+            let got = p.find("order=").unwrap_or("-").to_string();
+            distinct.insert((x, c, forked, got.clone()));
+            if p.fate != Fate::Exited(0) {
+                violations.push(BViolation { message: format!("C10: overlapping batches: probe process {}", p.fate.describe()), case });
+            } else if got != "[1, 2, 3, 4]" {
+                violations.push(BViolation { message: format!("C10: WithRawSiginfo, deliveries 1,2,3 queued, {} taken from a first pending() batch, delivery 4, a second batch consumed, then the rest of the first: records came out as {} (must be each delivery once, in delivery order)", c, got), case });
+            }
+            continue;
+        }
         let case = json!({"grid": "instance created before a fork", "exfiltrator": EXF[x], "consumer": CONSUMERS[c], "used_in": if forked { "the forked child" } else { "the creating process (control)" }});
         let res = p.find("result ").unwrap_or("-").to_string();
         distinct.insert((x, c, forked, res.clone()));
@@ -178,7 +228,7 @@ pub fn run(prop: &str, _tier: Tier) -> BResult {
         violations,
         exhaustive: true,
         caps: vec![],
-        rule: "fork grid: exfiltrator {SignalOnly, WithRawSiginfo} x consumer {wait, forever, polled pending | close() against a blocked wait()} x {used in a forked child, control in the creating process}: the instance is created before fork(); in the process that uses it a delivery is handed out / close() unblocks the consumer, ends forever() and is_closed() is true, within a 5 s watchdog".into(),
+        rule: "fork grid: exfiltrator {SignalOnly, WithRawSiginfo} x consumer {wait, forever, polled pending | close() against a blocked wait()} x {used in a forked child, control in the creating process}: the instance is created before fork(); in the process that uses it a delivery is handed out / close() unblocks the consumer, ends forever() and is_closed() is true, within a 5 s watchdog; for C10 also 4 sequential cells: deliveries 1,2,3 queued with a payload, k in 0..=3 records taken from a first pending() batch, delivery 4, a second batch consumed completely, then the rest of the first - every record once, in delivery order".into(),
         assumptions: vec!["the forked child is single-threaded at the fork and starts its own threads afterwards".into()],
     }
 }
